@@ -257,9 +257,9 @@ func (s Set) sorted() []string {
 // Flow is a forward dataflow problem over string sets.
 type Flow struct {
 	F        *FCFG
-	Must     bool                                                // join = intersection (must) or union (may)
-	Entry    Set                                                 // fact at function entry
-	Transfer func(n ast.Node, in Set) Set                        // per CFG node
+	Must     bool                                                 // join = intersection (must) or union (may)
+	Entry    Set                                                  // fact at function entry
+	Transfer func(n ast.Node, in Set) Set                         // per CFG node
 	Edge     func(from *cfg.Block, succ int, out Set) (Set, bool) // optional edge refinement; false = infeasible
 	in       []Set
 	seen     []bool
